@@ -349,6 +349,10 @@ fn unordered(thorough: bool, _seed: u64, rep: &mut Report) {
     { let one = RefValue::Num("1".into()); let two = RefValue::Num("2".into());
       let oa = RefValue::Obj(vec![("u".into(), one.clone()), ("v".into(), two.clone())]); let ob = RefValue::Obj(vec![("v".into(), two.clone()), ("u".into(), one.clone())]);
       let arrs = vec![RefValue::Arr(vec![]), RefValue::Arr(vec![one.clone()]), RefValue::Arr(vec![one.clone(), two.clone()]), RefValue::Arr(vec![one.clone(), two.clone(), one.clone()]), RefValue::Arr(vec![oa.clone()]), RefValue::Arr(vec![ob.clone(), one.clone()]), RefValue::Arr(vec![oa.clone(), one.clone()]), RefValue::Arr(vec![ob.clone()])];
+      // the same items in another order: arrays stay ordered, so these differ unless the items coincide
+      let mut arrs = arrs;
+      arrs.extend(vec![RefValue::Arr(vec![two.clone(), one.clone()]), RefValue::Arr(vec![one.clone(), one.clone(), two.clone()]), RefValue::Arr(vec![two.clone(), one.clone(), one.clone()]),
+          RefValue::Arr(vec![oa.clone(), one.clone()]), RefValue::Arr(vec![one.clone(), ob.clone()]), RefValue::Arr(vec![one.clone(), oa.clone()]), RefValue::Arr(vec![one.clone(), one.clone()])]);
       let mut apool = arrs.clone();
       for a in &arrs { apool.push(RefValue::Obj(vec![("k".into(), a.clone()), ("n".into(), one.clone())])); apool.push(RefValue::Obj(vec![("n".into(), one.clone()), ("k".into(), a.clone())])); apool.push(RefValue::Arr(vec![a.clone()])); }
       let areals: Vec<Value> = apool.iter().map(to_real).collect();
@@ -394,7 +398,7 @@ fn unordered(thorough: bool, _seed: u64, rep: &mut Report) {
     // entries at every depth must be unordered-equal, a single-leaf mutation must be told apart --
     // judged by a SECOND oracle, the recursively sorted normal form, which must also agree with the
     // matching-based one
-    rep.checks.push("C15: random nested values vs deep shuffles and single-leaf mutations (normal-form oracle)".into());
+    rep.checks.push("C15: random nested values vs deep shuffles, single-leaf mutations and rotations of array items (normal-form oracle)".into());
     let mut rng = crate::Rng(_seed.wrapping_mul(0x9E3779B97F4A7C15) | 1);
     fn gen(rng: &mut crate::Rng, depth: usize) -> RefValue {
         let keys = ["a", "b", "c", "\u{e9}"];
@@ -431,7 +435,17 @@ fn unordered(thorough: bool, _seed: u64, rep: &mut Report) {
         let b = deep_shuffle(&a, &mut rng);
         let n = n_leaves(&a);
         let c = if n > 0 { let mut w = rng.below(n); mutate(&b, &mut w) } else { b.clone() };
-        for (what, x, y) in [("deep shuffle", &a, &b), ("single-leaf mutation of a shuffle", &a, &c), ("mutation vs its source shuffle", &c, &b)] {
+        // arrays stay ordered: rotating the items of every array (at every depth) by one changes the value
+        // unless the rotation happens to give the same items again -- the normal form decides
+        fn rotate_arrays(v: &RefValue) -> RefValue {
+            match v {
+                RefValue::Arr(a) => { let mut items: Vec<RefValue> = a.iter().map(rotate_arrays).collect(); if items.len() > 1 { items.rotate_left(1); } RefValue::Arr(items) }
+                RefValue::Obj(es) => RefValue::Obj(es.iter().map(|(k, x)| (k.clone(), rotate_arrays(x))).collect()),
+                o => o.clone(),
+            }
+        }
+        let d = rotate_arrays(&b);
+        for (what, x, y) in [("deep shuffle", &a, &b), ("single-leaf mutation of a shuffle", &a, &c), ("mutation vs its source shuffle", &c, &b), ("array items rotated", &a, &d)] {
             let want = nf(x) == nf(y);
             if want != ref_unordered_eq(x, y) { rep.violation("(reference self-check) the two oracles agree", "oracle", format!("{:?} ~ {:?}", x, y), format!("normal form says {}", want)); }
             let (rx, ry) = (to_real(x), to_real(y));
